@@ -42,6 +42,7 @@ CLASS_IDS = {
 T_NONE, T_BOOL, T_INT, T_FLOAT, T_STR, T_BYTES, T_DICT, T_LIST, T_TUPLE, T_OBJECT = range(10)
 T_NOCACHE, T_CACHESUB, T_DOCSTORE, T_SECURITY, T_DOCTOR = 10, 11, 12, 13, 14
 T_HTTP, T_HTTPAUTH = 15, 16
+T_CUSTOM, T_HTTPAUTH_HDR = 17, 18
 T_UNKNOWN = 99
 
 
@@ -64,6 +65,8 @@ def value_classes():
         T_DOCTOR: suds.xsd.doctor.ImportDoctor,
         T_HTTP: suds.transport.http.HttpTransport,
         T_HTTPAUTH: suds.transport.https.HttpAuthenticated,
+        T_CUSTOM: suds.transport.Transport,     # the harness uses a direct subclass of Transport
+        T_HTTPAUTH_HDR: suds.transport.http.HttpAuthenticated,
     }
 
 
